@@ -15,11 +15,18 @@ sys.path.insert(0, os.path.dirname(os.path.abspath(__file__)))
 import core  # noqa: E402
 
 
-def record(cfg, path, call):
-    """Fresh replay of `path`, then `call`, undo, redo."""
+def reach(cfg, path):
     drv = core.Driver(cfg)
     for c in path:
         drv.apply(c)
+    if cfg.rebuild:
+        drv = drv.rebuilt()
+    return drv
+
+
+def record(cfg, path, call):
+    """Fresh replay of `path`, then `call`, undo, redo."""
+    drv = reach(cfg, path)
     pre = drv.project()
     ok, err, emit, ret = drv.apply(call)
     post = drv.project(queries=True)
@@ -55,9 +62,7 @@ def work(args):
     seen = set()
     with open(out, "w") as f:
         for path in paths:
-            drv = core.Driver(cfg)
-            for c in path:
-                drv.apply(c)
+            drv = reach(cfg, path)
             key = json.dumps(drv.project(), sort_keys=True)
             if key in seen:
                 continue
